@@ -1,2 +1,152 @@
+"""C04, history level: the window invariant is an inductive invariant of the pairing machine *as described by
+the operation contracts proved on the real code* (contracts/traces_parser.py: the transition relation used
+here is built from those very clause objects, never re-typed), and at every emission the delivered list
+is what the property describes.
+
+History: events are indexed 0..n-1 (ev.tid / ev.eventid / ev.qual are functions of the index); D(i) says
+event i belongs to this table's pairing domain; Stray(i) is the ghost fact recorded when event i was an END
+without an open START.  Ghost per window: membership M[t][c][i] and position P[t][c][i] (witness
+functions for "event i is in the window", avoiding existential quantifiers)."""
+import z3
+
+from pyvc import solve
+from pyvc.heap import Snap, I, AIAIB, AIAII, AIAIAII
+from contracts import traces_parser as TP
+
+B = z3.BoolSort()
+EvTid = z3.Function('ev.tid', I, I)
+EvCode = z3.Function('ev.eventid', I, I)
+EvQual = z3.Function('ev.qual', I, I)
+D = z3.Function('hist.in_domain', I, B)
+Stray = z3.Function('hist.stray', I, B)
+
+T, C, J, K, X = z3.Ints('h!t h!c h!j h!k h!x')
+
+
+class Ghost:
+    def __init__(self, name):
+        self.M = z3.Const(name + '.M', z3.ArraySort(I, z3.ArraySort(I, z3.ArraySort(I, B))))
+        self.P = z3.Const(name + '.P', AIAIAII)
+
+    def m(self, t, c, i):
+        return z3.Select(z3.Select(z3.Select(self.M, t), c), i)
+
+    def p(self, t, c, i):
+        return z3.Select(z3.Select(z3.Select(self.P, t), c), i)
+
+    def rowM(self, t, c):
+        return z3.Select(z3.Select(self.M, t), c)
+
+    def rowP(self, t, c):
+        return z3.Select(z3.Select(self.P, t), c)
+
+
+def inv_clauses(S, G, n, t, c):
+    """the window invariant for the window (t, c) of table S after n events"""
+    L = S.length(t, c)
+    a = lambda j: S.elem(t, c, j)
+    op = S.is_open(t, c)
+    return [
+        ('shape', z3.Implies(op, z3.And(L >= 1, EvQual(a(0)) == 1, EvTid(a(0)) == t, EvCode(a(0)) == c, D(a(0))))),
+        ('bounds', z3.Implies(op, z3.ForAll([J], z3.Implies(z3.And(J >= 0, J < L), z3.And(a(J) >= 0, a(J) < n))))),
+        ('increasing', z3.Implies(op, z3.ForAll([J, K], z3.Implies(z3.And(J >= 0, J < K, K < L), a(J) < a(K))))),
+        ('range', z3.Implies(op, z3.ForAll([J], z3.Implies(z3.And(J >= 0, J < L), z3.And(EvTid(a(J)) == t, D(a(J))))))),
+        ('link.member-has-position', z3.Implies(op, z3.ForAll([X], z3.Implies(G.m(t, c, X), z3.And(G.p(t, c, X) >= 0, G.p(t, c, X) < L,
+                                                                                               a(G.p(t, c, X)) == X))))),
+        ('link.position-is-member', z3.Implies(op, z3.ForAll([J], z3.Implies(z3.And(J >= 0, J < L), z3.And(G.m(t, c, a(J)), G.p(t, c, a(J)) == J))))),
+        ('complete', z3.Implies(op, z3.ForAll([X], z3.Implies(z3.And(X > a(0), X < n, EvTid(X) == t, D(X), z3.Not(Stray(X))), G.m(t, c, X))))),
+        ('recent', z3.Implies(op, z3.ForAll([X], z3.Implies(z3.And(X > a(0), X < n, EvTid(X) == t, EvCode(X) == c, D(X)),
+                                                             z3.Or(EvQual(X) == 0, EvQual(X) == 3))))),
+    ]
+
+
+def inv_all(S, G, n):
+    out = []
+    for name, f in inv_clauses(S, G, n, T, C):
+        out.append(z3.ForAll([T, C], f))
+    return out
+
+
+def ghost_step(S0, G0, G1, t, c, n, kind):
+    """ghost update accompanying one operation (mirrors the appends of the contract)"""
+    fs = []
+    open0 = lambda cc: S0.is_open(t, cc)
+    if kind == 'start':
+        fs.append(G1.rowM(t, c) == z3.Store(z3.K(I, z3.BoolVal(False)), n, True))
+        fs.append(G1.rowP(t, c) == z3.Store(z3.K(I, z3.IntVal(0)), n, 0))
+    if kind in ('start', 'end', 'single'):
+        skip = c if kind in ('start', 'end') else None
+        cond = lambda cc: z3.And(open0(cc), cc != skip) if skip is not None else open0(cc)
+        fs.append(z3.ForAll([C], z3.Implies(cond(C), z3.And(G1.rowM(t, C) == z3.Store(G0.rowM(t, C), n, True),
+                                                           G1.rowP(t, C) == z3.Store(G0.rowP(t, C), n, S0.length(t, C))))))
+    fs.append(z3.ForAll([T], z3.Implies(T != t, z3.And(z3.Select(G1.M, T) == z3.Select(G0.M, T), z3.Select(G1.P, T) == z3.Select(G0.P, T)))))
+    if kind == 'stray':
+        fs = [G1.M == G0.M, G1.P == G0.P]
+    return fs
+
+
 def run_part(run, tier):
-    pass
+    fn = 'pykdebugparser.traces_parser:TracesParser (history lemma over the operation contracts)'
+    S0, S1 = Snap.fresh('H0'), Snap.fresh('H1')
+    G0, G1 = Ghost('G0'), Ghost('G1')
+    n = z3.Int('n')
+    t, c = EvTid(n), EvCode(n)
+    base = [n >= 0, D(n), EvQual(n) >= 0, EvQual(n) <= 3] + inv_all(S0, G0, n) + [TP.wf(S0)]
+    # establishment: the empty table (TracesParser.__init__ creates {}) satisfies the invariant
+    empty = Snap(z3.K(I, z3.BoolVal(False)), S0.cdom, S0.ln, S0.el)
+    for name, f in inv_clauses(empty, G0, z3.IntVal(0), T, C):
+        v = solve.prove([], f, 20000, tier)
+        _rec(run, 'C04/history/establish.%s' % name, v, fn)
+    arr = z3.Const('emit.arr', z3.ArraySort(I, I))
+    ln = z3.Int('emit.len')
+    cases = {
+        'start': ([EvQual(n) == 1] + [f for _, f in TP.post_start(S0, S1, t, c, n)], 'start'),
+        'end-open': ([EvQual(n) == 2, S0.is_open(t, c)] + [f for _, f in TP.post_end_open(S0, S1, t, c, n, arr, ln)], 'end'),
+        'end-stray': ([EvQual(n) == 2, z3.Not(S0.is_open(t, c)), Stray(n)] + [f for _, f in TP.post_unchanged(S0, S1)], 'stray'),
+        'single': ([z3.Or(EvQual(n) == 0, EvQual(n) == 3)] + [f for _, f in TP.post_single(S0, S1, t, n)], 'single'),
+    }
+    for cname, (hyps, kind) in cases.items():
+        stray_fact = [] if kind == 'stray' else [z3.Not(Stray(n))]
+        hyp = base + hyps + ghost_step(S0, G0, G1, t, c, n, kind) + stray_fact
+        # cover: the hypotheses of this case are consistent (checked without the quantified part)
+        tt, cc = z3.Ints('sk.t sk.c')
+        for name, f in inv_clauses(S1, G1, n + 1, tt, cc):
+            v = solve.prove(hyp, f, 30000, tier)
+            _rec(run, 'C04/history/%s.preserves.%s' % (cname, name), v, fn)
+    # emission lemma: what an END with an open START delivers
+    hyps, kind = cases['end-open']
+    hyp = base + hyps
+    L0 = S0.length(t, c)
+    a0 = lambda j: S0.elem(t, c, j)
+    x = z3.Int('sk.x')
+    j1, j2 = z3.Ints('sk.j1 sk.j2')
+    goals = [
+        ('begins-with-most-recent-start', z3.And(z3.Select(arr, 0) == a0(0), EvQual(a0(0)) == 1, EvTid(a0(0)) == t, EvCode(a0(0)) == c,
+                                                 z3.Implies(z3.And(x > a0(0), x < n, EvTid(x) == t, EvCode(x) == c, D(x)), EvQual(x) != 1))),
+        ('ends-with-the-end', z3.And(ln >= 2, z3.Select(arr, ln - 1) == n)),
+        ('stream-order-no-duplicates', z3.Implies(z3.And(j1 >= 0, j1 < j2, j2 < ln), z3.Select(arr, j1) < z3.Select(arr, j2))),
+        ('only-same-thread-same-domain-inside-interval', z3.Implies(z3.And(j1 >= 0, j1 < ln), z3.And(EvTid(z3.Select(arr, j1)) == t, D(z3.Select(arr, j1)),
+                                                                                                   z3.Select(arr, j1) >= a0(0), z3.Select(arr, j1) <= n))),
+        ('every-non-stray-event-in-between', z3.Implies(z3.And(x > a0(0), x < n, EvTid(x) == t, D(x), z3.Not(Stray(x))),
+                                                        z3.And(G0.p(t, c, x) >= 0, G0.p(t, c, x) < ln, z3.Select(arr, G0.p(t, c, x)) == x))),
+    ]
+    for name, g in goals:
+        v = solve.prove(hyp, g, 30000, tier)
+        _rec(run, 'C04/history/emission.%s' % name, v, fn)
+    # vacuity canary: from the same hypotheses `False` must not be provable
+    for cname, (hyps, kind) in cases.items():
+        hyp = base + hyps + ghost_step(S0, G0, G1, t, c, n, kind)
+        r, _ = solve.satisfiable(hyp, 2500)
+        if r == z3.unsat:
+            run.engine_error('C04 history lemma: hypotheses of case %s are contradictory' % cname)
+
+
+def _rec(run, name, v, fn):
+    if v.status == 'proved':
+        run.add(name, 'proved', v.backend, v.ms, fn, kind='lemma')
+    elif v.status == 'disagree':
+        run.add(name, 'engine-error', v.backend, v.ms, fn, v.detail, kind='lemma')
+        run.engine_error('solver disagreement on %s' % name)
+    else:
+        run.add(name, v.status, v.backend, v.ms, fn, v.detail, kind='lemma')
+        run.pending_failures.append((name, v.status, v.detail))
